@@ -6,7 +6,9 @@ Part 2 (crash safety, fault enumeration): every crash instant of the REAL TdMpsJ
 state, for every step, followed by restarts (and a second crash); the oracle is the directory inspected with np.load.
 """
 import errno
+import functools
 import gc
+import hashlib
 import io
 import os
 import shutil
@@ -105,20 +107,90 @@ def tree_diff(a, b):
     return out
 
 
-def result_diff(a, b):
+TOL = 1e-10   # = kappa*eps with kappa ~ 4.5e5: rounding-order differences of a handful of QR/SVD/contraction sweeps are ~1e-15..1e-13
+
+
+def tree_dense(t):
+    """independent dense contraction of a tree state: amplitudes over the physical legs in node order (coeff included)"""
+    nodes = t.node_list
+    idx = {id(nd): i for i, nd in enumerate(nodes)}
+    nxt = len(nodes)
+    args, out = [], []
+    for nd in nodes:
+        a = np.asarray(nd.tensor)
+        nphys = a.ndim - len(nd.children) - 1
+        lab = [idx[id(c)] for c in nd.children]
+        for _ in range(nphys):
+            lab.append(nxt)
+            out.append(nxt)
+            nxt += 1
+        lab.append(idx[id(nd)])
+        args += [a, lab]
+    root = idx[id(t.root)]
+    v = np.einsum(*args, out + [root], optimize="greedy")
+    assert v.shape[-1] == 1
+    return v.reshape(-1) * np.asarray(t.coeff).reshape(-1)[0]
+
+
+def _meta_chain(x):
+    return (type(x).__name__, len(x), int(x.qnidx), bool(x.to_right), tuple(np.asarray(x.qntot).reshape(-1).tolist()),
+            tuple(int(b) for b in x.bond_dims), np.dtype(x.dtype).kind)
+
+
+def _meta_tree(x):
+    return (type(x).__name__, len(x.node_list), tuple(np.asarray(x.qntot).reshape(-1).tolist()),
+            tuple(tuple(nd.tensor.shape) for nd in x.node_list), tuple(nd.tensor.dtype.kind for nd in x.node_list))
+
+
+def _close(a, b, scale=None):
+    a, b = np.asarray(a), np.asarray(b)
+    if a.shape != b.shape:
+        return False
+    if a.size == 0:
+        return True
+    if not (np.all(np.isfinite(a)) and np.all(np.isfinite(b))):
+        return bits(a.astype(complex), b.astype(complex))
+    sc = max(1.0, float(np.abs(a).max()), float(np.abs(b).max())) if scale is None else scale
+    return bool(np.all(np.abs(a - b) <= TOL * sc))
+
+
+def result_diff(a, b, scale=1.0):
+    """[] when two results of a later operation are the same result.
+
+    Bit-identical results always pass.  Otherwise (the inputs are bit-identical, but NumPy/BLAS kernels may sum in an order that
+    depends on the memory alignment of the operands, which no dump format can preserve) the results must agree in every exact
+    attribute (class, sizes, centre, direction, sector, bond dimensions, per-bond labels) and the represented quantity
+    (independent dense contraction incl. coeff) must agree within TOL*scale."""
     if is_chain(a) and is_chain(b):
-        return chain_diff(a, b)
+        d = chain_diff(a, b)
+        if not d:
+            return []
+        if _meta_chain(a) != _meta_chain(b):
+            return ["exact attributes"] + d
+        if not qn_equal(a.qn, b.qn):
+            return ["qn"]
+        if all(_close(a[i].array, b[i].array) for i in range(len(a))) and _close(getattr(a, "coeff", 1), getattr(b, "coeff", 1)):
+            return []
+        da, db = S.dense(a), S.dense(b)
+        return [] if _close(da, db, max(1.0, float(np.linalg.norm(da.reshape(-1))))) else ["represented state"] + d
     if is_tree(a) and is_tree(b):
-        return tree_diff(a, b)
+        d = tree_diff(a, b)
+        if not d:
+            return []
+        if _meta_tree(a) != _meta_tree(b) or [f for f in d if not f.startswith("tensor") and f != "coeff"]:
+            return ["exact attributes"] + d
+        if all(_close(x.tensor, y.tensor) for x, y in zip(a.node_list, b.node_list)) and _close(a.coeff, b.coeff):
+            return []
+        da, db = tree_dense(a), tree_dense(b)
+        return [] if _close(da, db, max(1.0, float(np.linalg.norm(da)))) else ["represented state"] + d
     if is_chain(a) or is_chain(b) or is_tree(a) or is_tree(b):
         return ["type"]
-    try:
-        aa, bb = np.asarray(a), np.asarray(b)
-        if aa.dtype.kind in "fc" or bb.dtype.kind in "fc":
-            aa, bb = aa.astype(complex), bb.astype(complex)
-        return [] if bits(aa, bb) else ["value"]
-    except Exception:
-        return ["value"]
+    aa, bb = np.asarray(a), np.asarray(b)
+    if aa.dtype.kind not in "biufc" or bb.dtype.kind not in "biufc":
+        return [] if (aa.shape == bb.shape and np.all(aa == bb)) else ["value"]
+    if aa.shape == bb.shape and bits(aa.astype(complex), bb.astype(complex)):
+        return []
+    return [] if _close(aa, bb, max(1.0, scale, float(np.abs(aa).max()) if aa.size else 0.0)) else ["value"]
 
 
 def outcome(fn):
@@ -129,14 +201,14 @@ def outcome(fn):
         return ("exc", type(e).__name__, str(e)[:160])
 
 
-def later_ops(led, oid, fn_name, ops, orig, loaded, key, fields, rep, nontriv):
-    """every later operation gives the identical outcome on the original and on the reloaded object"""
+def later_ops(led, oid, fn_name, ops, orig, loaded, key, fields, rep, nontriv, scale=1.0):
+    """every later operation gives the same outcome on the original and on the reloaded object"""
     for name, f in ops:
         o1 = outcome(lambda: f(orig))
         o2 = outcome(lambda: f(loaded))
         fl = dict(fields, op=name, error=None)
         if o1[0] == "ok" and o2[0] == "ok":
-            d = result_diff(o1[1], o2[1])
+            d = result_diff(o1[1], o2[1], scale)
             show = "" if (not d or is_chain(o1[1]) or is_tree(o1[1]) or np.size(o1[1]) > 4) else f": {o2[1]!r} vs {o1[1]!r}"
             led.check(not d, oid, fn_name, f"{name} on the reloaded object differs from {name} on the original in {d[:4]}{show}",
                       key + (name,), fl, dict(rep, then=name), nontriv)
@@ -217,7 +289,7 @@ def state_ops(H):
 
 
 # =============================================================================================== part 1a: chain round trip
-def chain_roundtrip(led, x, model, fname, key, rep, ops, nontriv, fn="Mps.load", extra_fields=None):
+def chain_roundtrip(led, x, model, fname, key, rep, ops, nontriv, fn="Mps.load", extra_fields=None, scale=1.0):
     """dump x to fname, load it with the class of x and state every clause; returns the loaded object or None"""
     cls = type(x)
     fields = dict({"cls": cls.__name__}, **(extra_fields or {}))
@@ -250,7 +322,7 @@ def chain_roundtrip(led, x, model, fname, key, rep, ops, nontriv, fn="Mps.load",
     if hasattr(x, "coeff"):
         led.check(cbits(getattr(l, "coeff", None), x.coeff), f"post:{fn}:coeff", fn, f"coeff {getattr(l, 'coeff', None)!r} after load, was {x.coeff!r}",
                   key, fields, rep, nontriv)
-    later_ops(led, f"post:{fn}:later_op_identical", fn, ops, x, l, key, fields, rep, nontriv)
+    later_ops(led, f"post:{fn}:later_op_identical", fn, ops, x, l, key, fields, rep, nontriv, scale)
     return l
 
 
@@ -264,6 +336,7 @@ def w_chain(case, led):
     sel = sel[:2] if tier == "quick" else sel[:4]
     terms = U.random_terms(model, rng, 4, complex_factors=False)
     H = Mpo(model, terms) if terms else None
+    hscale = 1.0 + sum(abs(t.factor) for t in terms)
     ops = state_ops(H)
     tmp = tempfile.mkdtemp(prefix="c14_rt_")
     cnt = 0
@@ -289,7 +362,7 @@ def w_chain(case, led):
                                "terms": [repr(t) for t in terms],
                                "how": "vk.specs.chain.model_zoo / universe.make_state / chain.apply_gauge regenerate the state; then x.dump(f); type(x).load(model, f)"}
                         nontriv = n >= 2 and max(x.bond_dims) > 1
-                        chain_roundtrip(led, x, model, fname, key, rep, ops, nontriv)
+                        chain_roundtrip(led, x, model, fname, key, rep, ops, nontriv, scale=hscale * (1.0 + float(np.linalg.norm(S.dense(x))) ** 2))
         # ---- operators (MatrixProduct.load)
         for cf in (False, True):
             t2 = U.random_terms(model, rng, 4, complex_factors=cf)
@@ -318,7 +391,8 @@ def w_chain(case, led):
                 key = ("mpo", name, n, cf, g)
                 rep = {"model": name, "nsites": n, "terms": [repr(t) for t in t2], "gauge": g, "centre": k, "seed": seed,
                        "how": "H = Mpo(model, terms) in this gauge; H.dump(f); Mpo.load(model, f)"}
-                chain_roundtrip(led, Hg, model, fname, key, rep, mops, n >= 2 and max(Hg.bond_dims) > 1, fn="MatrixProduct.load")
+                pscale = (1.0 + sum(abs(t.factor) for t in t2)) * (1.0 + (float(np.linalg.norm(S.dense(probe))) ** 2 if probe is not None else 0.0))
+                chain_roundtrip(led, Hg, model, fname, key, rep, mops, n >= 2 and max(Hg.bond_dims) > 1, fn="MatrixProduct.load", scale=pscale)
     finally:
         shutil.rmtree(tmp, ignore_errors=True)
 
@@ -331,9 +405,10 @@ def w_spill(case, led):
     model, sectors = S.model_zoo(name, n)
     sel = list(sectors)
     rng.shuffle(sel)
-    sel = sel[:2] if tier == "quick" else sel[:3]
+    sel = sel[:1] if tier == "quick" else sel[:3]
     terms = U.random_terms(model, rng, 4, complex_factors=False)
     H = Mpo(model, terms) if terms else None
+    hscale = 1.0 + sum(abs(t.factor) for t in terms)
     ops = state_ops(H)
     tmp = tempfile.mkdtemp(prefix="c14_spill_")
     cnt = 0
@@ -395,7 +470,11 @@ def w_spill(case, led):
                         # later operations with the spill active on the reloaded object == the same operations in memory
                         if l is not None:
                             spill_on(l)
-                            later_ops(led, "post:Mps.load:later_op_identical_with_spill", "Mps.load", ops, ref, l, key, fields, rep, nontriv)
+                            sc = hscale * (1.0 + float(np.linalg.norm(S.dense(ref))) ** 2)
+                            later_ops(led, "post:Mps.load:later_op_identical_with_spill", "Mps.load", ops, sp, l, key, fields, rep, nontriv, sc)
+                            few = [o for o in ops if o[0] in ("ensure_left_canonical", "compress", "expectation", "evolve_tdvp_ps")]
+                            later_ops(led, "post:MatrixProduct.__getitem__:spill_transparent_in_later_ops", "MatrixProduct.__getitem__", few, ref, sp,
+                                      key + ("transparent",), fields, rep, nontriv, sc)
                             d = chain_diff(l, ref)
                             led.check(not d, "frame:MatrixProduct.copy:spilled_original_untouched", "MatrixProduct.copy",
                                       f"operations on copies of a spilled object changed the object itself in {d[:4]}", key, fields, rep, nontriv)
@@ -482,6 +561,10 @@ def w_tree(case, led):
         bt = tree_of(shape, bl)
     except AssertionError:
         return      # this tree shape does not exist for so few degrees of freedom (precondition of the constructor)
+    except ValueError as e:
+        if "Inconsistent quantum number size" in str(e):
+            return  # virtual (dummy) nodes carry one quantum number: trees with them need a 1-component model (documented precondition)
+        raise
     model = Model(bl, [])
     terms = U.random_terms(model, rng, 4, complex_factors=False)
     ttno = TTNO(bt, terms) if terms else None
@@ -561,7 +644,8 @@ def w_tree(case, led):
                           key, fields, rep, nontriv)
                 led.check("qntot" not in d, f"post:{fn}:qntot", fn, f"qntot {l.qntot} after load, was {x.qntot}", key, fields, rep, nontriv)
                 led.check("coeff" not in d, f"post:{fn}:coeff", fn, f"coeff {l.coeff!r} after load, was {x.coeff!r}", key, fields, rep, nontriv)
-                later_ops(led, f"post:{fn}:later_op_identical", fn, ops, x, l, key, fields, rep, nontriv)
+                sc = (1.0 + sum(abs(t.factor) for t in terms)) * (1.0 + float(np.linalg.norm(tree_dense(x))) ** 2)
+                later_ops(led, f"post:{fn}:later_op_identical", fn, ops, x, l, key, fields, rep, nontriv, sc)
     finally:
         shutil.rmtree(tmp, ignore_errors=True)
 
@@ -584,6 +668,7 @@ WATCH_PATH = ("exists", "lexists", "isfile")
 FRACS = ("empty", "half", "all_but_one_byte")
 
 
+@functools.lru_cache(maxsize=None)
 def payload(gen):
     return np.random.default_rng(1000 + gen).random(257)
 
@@ -601,10 +686,22 @@ def file_bytes(gen, step):
     return buf.getvalue()
 
 
+_JUDGED = {}    # exact file content (hash) -> verdict of np.load; the same few contents recur thousands of times
+
+
 def complete_gen(path):
     """generation number of a COMPLETELY loadable result file whose every entry is the data of one dump; None otherwise"""
+    with open(path, "rb") as fh:
+        raw = fh.read()
+    k = hashlib.blake2b(raw, digest_size=20).digest()
+    if k not in _JUDGED:
+        _JUDGED[k] = _complete_gen(raw)
+    return _JUDGED[k]
+
+
+def _complete_gen(raw):
     try:
-        with np.load(path, allow_pickle=False) as z:
+        with np.load(io.BytesIO(raw), allow_pickle=False) as z:
             d = {k: z[k] for k in z.files}
     except Exception:      # any failure of np.load / of reading a member = not loadable
         return None
@@ -822,6 +919,8 @@ def run_segment(d, base, nsteps, faults):
     ctl = Ctl(d, faults)
     old = (td.os, td.np)
     td.os, td.np = _OsProxy(ctl), _NpProxy(ctl)
+    quiet = td.logger.disabled
+    td.logger.disabled = True      # evolve() logs the traceback of the injected IOError: noise only
     res = {"crashed": False, "error": None}
     try:
         job = make_job(d, base, ctl)
@@ -833,6 +932,7 @@ def run_segment(d, base, nsteps, faults):
             res["error"] = f"{type(e).__name__}: {e}"
     finally:
         td.os, td.np = old
+        td.logger.disabled = quiet
     res["final"] = inspect_dir(d)
     res["ctl"] = ctl
     return res
@@ -958,7 +1058,7 @@ def _w_crash(case, led):
             for s2 in second_steps:
                 if s2 not in r2["ctl"].log:
                     continue
-                for p2 in points_of(r2["ctl"].log[s2], fracs=("half",) if tier == "quick" else FRACS):
+                for p2 in points_of(r2["ctl"].log[s2]):
                     f2 = dict(p2, dump_no=s2, kind="crash")
                     restore(d, snap1)
                     r2c = run_segment(d, 200, n2, [f2])
